@@ -93,6 +93,7 @@ func c01Gen(rt *rapid.T) wProg {
 	p.Cfg = wConfig{Users: 3, Root: gPct(rt, 30), Media: true}
 	p.Sess = append([]int(nil), gPick(rt, gLayouts, "layout")...)
 	gPrologue(rt, &p, 20, 85, 60)
+	p.Ops = append(p.Ops, wOp{K: "upload", S: 0}, wOp{K: "upload", S: 0})
 	n := gInt(rt, 2, 14, "nops")
 	pub := func() wOp {
 		s := gInt(rt, 0, len(p.Sess)-1, "s")
@@ -100,9 +101,12 @@ func c01Gen(rt *rapid.T) wProg {
 		if gPct(rt, 12) {
 			op.F = true
 		}
-		if gPct(rt, 12) {
-			// attachment naming a file that was never uploaded, or an unparsable url
-			op.X = []string{gPick(rt, []string{"/v0/file/s/AAAAAAAAAAE", "/v0/file/s/AAAAAAAAAAE.png", "http://example.com/x", "/other/AAAAAAAAAAE"}, "att")}
+		if gPct(rt, 14) {
+			// attachments: an upload made earlier in the program, a file that was never uploaded, an unparsable url
+			op.X = []string{gPick(rt, []string{"$file0", "$file0", "$file1", "/v0/file/s/AAAAAAAAAAE", "/v0/file/s/AAAAAAAAAAE.png", "http://example.com/x", "/other/AAAAAAAAAAE"}, "att")}
+			if gPct(rt, 30) {
+				op.X = append(op.X, gPick(rt, []string{"$file1", "/v0/file/s/AAAAAAAAAAE"}, "att2"))
+			}
 		}
 		if p.Cfg.Root && p.Sess[s] == 0 && gPct(rt, 25) {
 			op.Obo = 2 // on behalf of user 1
@@ -301,7 +305,7 @@ func (o *c01Obs) After(w *wWorld, st *wStep) *kit.Viol {
 		sort.Slice(as, func(i, j int) bool { return as[i].seq < as[j].seq })
 		for i, a := range as {
 			want := t.last + 1 + i
-			if i == 0 && a.seq != want && len(t.failed) > 0 && a.seq == o.preSeq[route]+1 && a.seq > want {
+			if i == 0 && a.seq != want && len(t.failed) > 0 && a.seq <= o.preSeq[route]+1 && a.seq > want {
 				// The stored counter ran ahead of the topic's because a publish failed after the
 				// topic row had been bumped, and the topic was reloaded from the store since.
 				v := kit.V("number-burnt-by-failed-save", "topic %s: publish %s acknowledged as #%d, expected #%d: a publish whose message insert failed had already bumped the stored counter to %d and the topic was reloaded from the store afterwards, so the failed save consumed a number", route, a.tok, a.seq, want, o.preSeq[route])
